@@ -85,6 +85,7 @@ impl<K: KeyT> SetSlot<K> {
 
 fn mark_forgotten(ids: impl Iterator<Item = u64>) {
     ctx::with(|c| {
+        c.zst_slack = true;
         for id in ids {
             if id != 0 {
                 if let Some(o) = c.ledger.get_mut(&id) {
@@ -304,11 +305,20 @@ impl<K: KeyT, V: ValT> World<K, V> {
                         acc.out.res = format!("kept {}", slot.model.len());
                         self.post_set(acc, si, before, stats, Cost::Exempt, false, 0, true);
                     }
-                    Err(pn) => self.handle_panic(acc, pn, &[]),
+                    Err(pn) => {
+                        if let Panic::Injected(ctx::Site::Drop, _) = &pn {
+                            acc.probe(if before.split && before.old_len > 0 { if K::CLASS.is_zst() { "retain-destructor-panicked-during-resize-zero-sized" } else { "retain-destructor-panicked-during-resize" } } else { "retain-destructor-panicked" });
+                        }
+                        self.handle_panic(acc, pn, &[])
+                    }
                 }
             }
-            Op::SDrainFilter { s, pred, consume } => {
+            Op::SDrainFilter { s, pred, consume, drop_panic } => {
                 let si = *s as usize;
+                let drop_panic = if K::CLASS.has_drop() { *drop_panic } else { None };
+                if let Some(n) = drop_panic {
+            ctx::with(|c| c.drop_fuse = Some(n as u64));
+        }
                 let before = self.sets[si].s.verif_state();
                 let take = self.sets[si].eval_pred(pred);
                 let slot = &mut self.sets[si];
@@ -349,7 +359,15 @@ impl<K: KeyT, V: ValT> World<K, V> {
                     }
                 });
                 let stats = (co.hashes, co.alloc.allocs);
-                match co.result {
+                ctx::with(|c| c.drop_fuse = None);
+                let mut result = co.result;
+                if let Err(Panic::Injected(ctx::Site::Drop, _)) = &result {
+                    // the destructor of a removed element panicked while the early-dropped
+                    // iterator was finishing its job: the job must have been finished anyway
+                    acc.probe("set-drain_filter-drop-panicked-destructor");
+                    result = Ok(());
+                }
+                match result {
                     Ok(()) => {
                         for w in wrong {
                             acc.anomaly("partition-mismatch", w);
@@ -809,7 +827,7 @@ impl<K: KeyT, V: ValT> World<K, V> {
                     acc.internal("capacity-below-len", format!("set capacity()={} < len()={}", cap, len));
                     return;
                 }
-                if K::CLASS == ElemClass::Zst {
+                if K::CLASS.is_zst() {
                     acc.out.res = "probe skipped (one possible element)".to_string();
                     return;
                 }
